@@ -141,12 +141,9 @@ def hexFix : Nat → Nat → List Nat
 def hexUp (width v : Nat) : List Nat :=
   if v < 16 ^ width then hexFix width v else hexFix (Nat.log2 v / 4 + 1) v
 
-/-- `DN::encode(name, oid, w, expected_len)` -/
-def dnEncode (v : Except String DnVal) (oid : List Nat) (expected : Option IntLen) : M Unit := do
-  op .startSet
-  op .startSeq
-  op (.oid oid)
-  match ← get v with
+/-- the `match self.value()?` of `DN::encode` -/
+def dnValue (v : DnVal) (expected : Option IntLen) : M Unit :=
+  match v with
   | .uint x =>
     match expected with
     | some .len16 => op (.utf8str (hexUp 16 x))
@@ -154,23 +151,35 @@ def dnEncode (v : Except String DnVal) (oid : List Nat) (expected : Option IntLe
     | none => fail .invalid
   | .utf8 s => op (.utf8str s)
   | .printable s => op (.printstr s)
+
+/-- `DN::encode(name, oid, w, expected_len)` -/
+def dnEncode (v : Except String DnVal) (oid : List Nat) (expected : Option IntLen) : M Unit := do
+  op .startSet
+  op .startSeq
+  op (.oid oid)
+  let v ← get v
+  dnValue v expected
   op .endSeq
   op .endSet
+
+/-- the body of the `for dn in values` loop of `DN::encode_all` (after `let dn = dn?`) -/
+def dnItem (dn : DnItem) : M Unit :=
+  match dn.tag with
+  | some tag =>
+    let index := tag - 1
+    if index ≤ DN_ENCODING.length then
+      match DN_ENCODING[index]? with
+      | some (oid, expected) => dnEncode dn.value oid expected
+      | none => fail .panic
+    else pure ()
+  | none => pure ()
 
 /-- the `for dn in values` loop of `DN::encode_all` -/
 def dnLoop : List (Except String DnItem) → M Unit
   | [] => pure ()
   | it :: r => do
     let dn ← get it
-    match dn.tag with
-    | some tag =>
-      let index := tag - 1
-      if index ≤ DN_ENCODING.length then
-        match DN_ENCODING[index]? with
-        | some (oid, expected) => dnEncode dn.value oid expected
-        | none => fail .panic
-      else pure ()
-    | none => pure ()
+    dnItem dn
     dnLoop r
 
 /-- `DN::encode_all` -/
@@ -189,24 +198,37 @@ def reverseByte (b : Nat) : Nat :=
 /-- `int_to_bitstring` into `[0u8; 2]` -/
 def keyUsageBytes (a : Nat) : List Nat := [reverseByte (a % 256), reverseByte (a / 256 % 256)]
 
+/-- the body of the `for t in list` loop of `encode_extended_key_usage` (after `let t = t? as usize`) -/
+def ekuItem (t : Nat) : M Unit :=
+  -- (after fix C17-cert-eku-index: `t < encoding.len()`; it used to be `<=` and index 7 panicked)
+  if t > 0 ∧ t < EKU_ENCODING.length then
+    match EKU_ENCODING[t]? with
+    | some oid => op (.oid oid)
+    | none => fail .panic
+  else pure ()
+
 /-- the `for t in list` loop of `encode_extended_key_usage` -/
 def ekuLoop : List (Except String Nat) → M Unit
   | [] => pure ()
   | it :: r => do
     let t ← get it
-    -- (after fix C17-cert-eku-index: `t < encoding.len()`; it used to be `<=` and index 7 panicked)
-    if t > 0 ∧ t < EKU_ENCODING.length then
-      match EKU_ENCODING[t]? with
-      | some oid => op (.oid oid)
-      | none => fail .panic
-    else pure ()
+    ekuItem t
     ekuLoop r
+
+/-- `if cond { w.<op>(..)? }` -/
+def opIf (c : Bool) (o : Op) : M Unit := if c then op o else pure ()
+
+/-- `if let Some(len) = self.path { w.integer("", &[len])? }` -/
+def opPath (path : Option Nat) : M Unit :=
+  match path with
+  | some len => op (.integer [len])
+  | none => pure ()
 
 /-- `encode_extension_start` -/
 def extStart (critical : Bool) (oid : List Nat) : M Unit := do
   op .startSeq
   op (.oid oid)
-  if critical then op (.bool true) else pure ()
+  opIf critical (.bool true)
   op .startOstr
 
 /-- `encode_extension_end` -/
@@ -219,10 +241,8 @@ def extEncode : Ext → M Unit
   | .basic isCa path => do
     extStart true OID_BASIC_CONSTRAINTS
     op .startSeq
-    if isCa then op (.bool true) else pure ()
-    match path with
-    | some len => op (.integer [len])
-    | none => pure ()
+    opIf isCa (.bool true)
+    opPath path
     op .endSeq
     extEnd
   | .keyUsage v => do
@@ -265,6 +285,13 @@ def extEncodeAll (l : List (Except String Ext)) : M Unit := do
 /-- `get_sign_algo(..).ok_or(Invalid)` etc.: the only defined value is 1 -/
 def enumOid (v : Nat) (oid : List Nat) : M (List Nat) := if v = 1 then pure oid else fail .invalid
 
+/-- `if self.not_after()? == 0 { w.utctime(.., MATTER_CERT_DOESNT_EXPIRE)? } else { w.utctime(.., self.not_after()?.into())? }` -/
+def notAfterOps (c : Cert) (na : Nat) : M Unit :=
+  if na = 0 then op (.utctime DOESNT_EXPIRE)
+  else do
+    let na ← get c.notAfter
+    op (.utctime na)
+
 /-- `CertRef::encode` -/
 def encode (c : Cert) : M Unit := do
   op .startSeq
@@ -284,10 +311,7 @@ def encode (c : Cert) : M Unit := do
   let nb ← get c.notBefore
   op (.utctime nb)
   let na ← get c.notAfter
-  if na = 0 then op (.utctime DOESNT_EXPIRE)
-  else do
-    let na ← get c.notAfter
-    op (.utctime na)
+  notAfterOps c na
   op .endSeq
   let subject ← get c.subject
   dnEncodeAll subject
